@@ -209,19 +209,31 @@ func (k Keeper) EscrowReporterStake(ctx context.Context, reporterAddr sdk.AccAdd
 		}
 
 		if !remaining.IsZero() {
-			dstVAl, err := k.getDstValidator(ctx, delAddr, valAddr)
+			// follow the tokens to every validator they were redelegated to; what cannot be found anywhere is an error
+			dstVals, err := k.getDstValidators(ctx, delAddr, valAddr)
 			if err != nil {
 				return err
 			}
-			_, err = k.undelegate(ctx, delAddr, dstVAl, math.LegacyNewDecFromInt(remaining))
-			if err != nil {
-				return err
+			for _, dstVal := range dstVals {
+				if remaining.IsZero() {
+					break
+				}
+				left, err := k.undelegate(ctx, delAddr, dstVal, math.LegacyNewDecFromInt(remaining))
+				if err != nil {
+					return err
+				}
+				if taken := remaining.Sub(left); !taken.IsZero() {
+					disputeTokens = append(disputeTokens, &types.TokenOriginInfo{
+						DelegatorAddress: del.DelegatorAddress,
+						ValidatorAddress: dstVal,
+						Amount:           taken,
+					})
+				}
+				remaining = left
 			}
-			disputeTokens = append(disputeTokens, &types.TokenOriginInfo{
-				DelegatorAddress: del.DelegatorAddress,
-				ValidatorAddress: dstVAl,
-				Amount:           remaining,
-			})
+			if !remaining.IsZero() {
+				return errors.New("tokens to escrow not found with the redelegation destination validators")
+			}
 		}
 	}
 
@@ -229,22 +241,26 @@ func (k Keeper) EscrowReporterStake(ctx context.Context, reporterAddr sdk.AccAdd
 	return k.DisputedDelegationAmounts.Set(ctx, hashId, types.DelegationsAmounts{TokenOrigins: disputeTokens, Total: amt})
 }
 
-// get the destination validator for a redelegated delegator, used for chasing after tokens that were redelegated to a different validator
-func (k Keeper) getDstValidator(ctx context.Context, delAddr sdk.AccAddress, valAddr sdk.ValAddress) (sdk.ValAddress, error) {
+// get the destination validators of a delegator's redelegations away from valAddr, used for chasing after tokens that were redelegated
+func (k Keeper) getDstValidators(ctx context.Context, delAddr sdk.AccAddress, valAddr sdk.ValAddress) ([]sdk.ValAddress, error) {
 	reds, err := k.stakingKeeper.GetRedelegationsFromSrcValidator(ctx, valAddr)
 	if err != nil {
 		return nil, err
 	}
+	dsts := make([]sdk.ValAddress, 0)
 	for _, red := range reds {
 		if strings.EqualFold(red.DelegatorAddress, delAddr.String()) {
-			valAddr, err := sdk.ValAddressFromBech32(red.ValidatorDstAddress)
+			dst, err := sdk.ValAddressFromBech32(red.ValidatorDstAddress)
 			if err != nil {
 				return nil, err
 			}
-			return valAddr, nil
+			dsts = append(dsts, dst)
 		}
 	}
-	return nil, errors.New("redelegation to destination validator not found")
+	if len(dsts) == 0 {
+		return nil, errors.New("redelegation to destination validator not found")
+	}
+	return dsts, nil
 }
 
 // chases after unbonding delegations in order to get tokens that are part a new dispute
